@@ -239,7 +239,7 @@ pub fn protocol_storm(rounds: u64, seed: u64) -> LiveResult {
         let mut hung = false;
         for h in handles {
             while !h.is_finished() {
-                if t0.elapsed() > Duration::from_secs(8) {
+                if t0.elapsed() > Duration::from_secs(15) {
                     hung = true;
                     break;
                 }
@@ -254,7 +254,7 @@ pub fn protocol_storm(rounds: u64, seed: u64) -> LiveResult {
         if hung {
             violations += 1;
             if detail.is_empty() {
-                detail = format!("round {}: a wait()/clear()/close()/remove() call is still blocked 8 s after start (progress {})", r, progress.load(Ordering::SeqCst));
+                detail = format!("round {}: a wait()/clear()/close()/remove() call is still blocked 15 s after start (progress {})", r, progress.load(Ordering::SeqCst));
             }
             // the cache of this round is wedged: leak it
             std::mem::forget(c);
@@ -265,7 +265,7 @@ pub fn protocol_storm(rounds: u64, seed: u64) -> LiveResult {
 }
 
 /// C20: every operation completes. Threads mix `get_ttl` and `insert_with_ttl` on one key; a
-/// watchdog reports a stall (no operation completing for 3 s) — the shard-lock re-entry deadlock.
+/// watchdog reports a stall (no operation completing for 8 s) — the shard-lock re-entry deadlock.
 pub fn ttl_mix(ops_per_thread: u64) -> LiveResult {
     mark_client();
     let c = build(1_000_000, 64, 0, 0);
@@ -299,7 +299,7 @@ pub fn ttl_mix(ops_per_thread: u64) -> LiveResult {
         if p != last {
             last = p;
             last_change = Instant::now();
-        } else if last_change.elapsed() > Duration::from_secs(3) {
+        } else if last_change.elapsed() > Duration::from_secs(8) {
             stalled = true;
             break;
         }
@@ -314,7 +314,7 @@ pub fn ttl_mix(ops_per_thread: u64) -> LiveResult {
             scenario: "ttl_mix",
             rounds: last,
             violations: 1,
-            detail: format!("4 threads mixing get_ttl and insert_with_ttl on one key stalled after {} operations: no call completed for 3 s", last),
+            detail: format!("4 threads mixing get_ttl and insert_with_ttl on one key stalled after {} operations: no call completed for 8 s", last),
         };
     }
     for h in handles {
@@ -371,7 +371,7 @@ pub fn workers_exit(rounds: u64) -> LiveResult {
         drop(c2);
         let t0 = Instant::now();
         let mut after = thread_count();
-        while after > base && t0.elapsed() < Duration::from_secs(3) {
+        while after > base && t0.elapsed() < Duration::from_secs(6) {
             std::thread::sleep(Duration::from_millis(2));
             after = thread_count();
         }
@@ -379,13 +379,17 @@ pub fn workers_exit(rounds: u64) -> LiveResult {
             violations += 1;
             if detail.is_empty() {
                 detail = format!(
-                    "round {} ({}): {} threads before, {} with the cache, {} still there 3 s after",
+                    "round {} ({}): {} threads before, {} with the cache, {} still there 6 s after",
                     r,
                     if closing { "close() then drop" } else { "drop of every handle without close()" },
                     base,
                     with_workers,
                     after
                 );
+            }
+            // leaked workers may be spinning: two such rounds are evidence enough
+            if violations >= 2 {
+                break;
             }
         }
     }
